@@ -71,9 +71,9 @@ Depth3(op, ng) ==
 
 StylesUsed == IF StyleMode = 1 THEN Styles
               ELSE {PlainStyle,
-                    [unit |-> TRUE, chain |-> TRUE, top |-> TRUE, negout |-> TRUE, rev |-> TRUE],
-                    [unit |-> FALSE, chain |-> TRUE, top |-> FALSE, negout |-> FALSE, rev |-> TRUE],
-                    [unit |-> TRUE, chain |-> FALSE, top |-> TRUE, negout |-> FALSE, rev |-> FALSE]}
+                    [unit |-> TRUE, chain |-> TRUE, top |-> TRUE, negout |-> TRUE, rev |-> TRUE, drop |-> FALSE],
+                    [unit |-> FALSE, chain |-> TRUE, top |-> FALSE, negout |-> FALSE, rev |-> TRUE, drop |-> FALSE],
+                    [unit |-> TRUE, chain |-> FALSE, top |-> TRUE, negout |-> FALSE, rev |-> FALSE, drop |-> FALSE]}
 
 (* ------------------------- cases ----------------------------------------- *)
 (* kind "ast": one rule rendered from ast; "chain": superiors chain; "alias": alias use with its
@@ -203,7 +203,7 @@ Constructive(c) ==
                conds == IndexOf(t, "CONDITIONS")
            IN
              {FileEdit(c, "unknown_profile", f, ReplAt(t, i, <<"zz">>), "reject") : i \in {i \in DOMAIN t : LexClosed(t[i]).k = "ID" /\ InConditions(t, i) /\ t[i] \notin {"x1", "x2"}}}
-        \cup {FileEdit(c, "unknown_profile_in_extenders", f, ReplAt(t, i, <<"zz">>), "reject") : i \in {i \in DOMAIN t : LexClosed(t[i]).k = "ID" /\ InExtenders(t, i) /\ t[i] \notin {"x1", "x2"}}}
+        \cup {FileEdit(c, "extender_profile", f, ReplAt(t, i, <<"zz">>), "reject") : i \in {i \in DOMAIN t : LexClosed(t[i]).k = "ID" /\ InExtenders(t, i) /\ t[i] \notin {"x1", "x2"}}}
         \cup {FileEdit(c, "unknown_category", f, ReplAt(t, i + 1, <<"Nope">>), "reject") : i \in IndexOf(t, "CATEGORY")}
         \cup {FileEdit(c, "duplicate_rule", f, t \o SubSeq(t, i, NextIn(LexSeq(t), i + 1, Starters) - 1), "reject") : i \in IndexOf(t, "RULE")}
         \cup {FileEdit(c, "duplicate_alias", f, InsAt(t, i, SubSeq(t, i, NextIn(LexSeq(t), i + 3, RuleKeywords) - 1)), "reject") : i \in IndexOf(t, "DEFINE")}
@@ -212,12 +212,12 @@ Constructive(c) ==
         \cup {FileEdit(c, "alias_as_rule_name", f, InsAt(t, i, Define(t[i + 1], <<"b">>)), "reject") : i \in IndexOf(t, "RULE")}
         \cup {FileEdit(c, "repeated_operand", f, InsAt(t, EndOfConditions(t, j) + 1, <<op>> \o SubSeq(t, j + 1, EndOfConditions(t, j))), "reject") : j \in conds, op \in {"or"}}
         \cup {FileEdit(c, "repeated_operand", f, InsAt(t, EndOfConditions(t, j) + 1, <<"and", "(", "b", "or", "c", "or", "b", ")">>), "reject") : j \in conds}
-        \cup {FileEdit(c, "repeated_minimum_option", f, InsAt(t, EndOfConditions(t, j) + 1, <<"and", "minimum", "(", "1", ",", "[", "e", ",", "f", ",", "e", "]", ")">>), "reject") : j \in conds}
+        \cup {FileEdit(c, "repeated_option", f, InsAt(t, EndOfConditions(t, j) + 1, <<"and", "minimum", "(", "1", ",", "[", "e", ",", "f", ",", "e", "]", ")">>), "reject") : j \in conds}
         \cup {FileEdit(c, "missing_section", f, DelAt(DelAt(t, i), i), "reject") : i \in IndexOf(t, "CATEGORY") \cup IndexOf(t, "CUTOFF") \cup IndexOf(t, "NEIGHBOURHOOD")}
         \cup {FileEdit(c, "missing_section", f, DelAt(t, i), "reject") : i \in conds}
         \cup {FileEdit(c, "missing_section", f, SubSeq(t, 1, i) \o SubSeq(t, EndOfConditions(t, i) + 1, Len(t)), "reject") : i \in conds}
         \cup {FileEdit(c, "unbalanced_group", f, DelAt(t, i), "reject") : i \in {i \in IndexOf(t, "(") \cup IndexOf(t, ")") : InConditions(t, i) \/ InExtenders(t, i)}}
-        \cup {FileEdit(c, "no_positive_requirement", f, InsAt(ReplAt(t, j, <<"CONDITIONS", "not", "(">>), EndOfConditions(t, j) + 3, <<")">>), "reject") : j \in conds}
+        \cup {FileEdit(c, "no_positive", f, InsAt(ReplAt(t, j, <<"CONDITIONS", "not", "(">>), EndOfConditions(t, j) + 3, <<")">>), "reject") : j \in conds}
         \cup {FileEdit(c, "superior_undefined", f, InsAt(t, i, <<"SUPERIORS", n>>), "reject") :
                 i \in {i \in IndexOf(t, "CUTOFF") : \A k \in 1..i : t[k] # "SUPERIORS" /\ (t[k] = "RULE" => k <= 1)}, n \in {"r9", "r1", "r3"}}
         \cup {FileEdit(c, "superior_duplicated", f, InsAt(t, i + 2, <<",", t[i + 1]>>), "reject") : i \in IndexOf(t, "SUPERIORS")}
@@ -252,14 +252,16 @@ Den(files, m) == Denote(files, Env, m)
 (* precedence and grouping are unambiguous: every style reads back as the tree it came from *)
 RoundTrip == (stage = 2 /\ case.kind = "ast") =>
     LET d == Den(case.files, case.mult) IN
-    /\ WellFormed(ast, FALSE)
+    /\ WellFormed(ast, FALSE) /\ Norm(ast) = ast
     /\ d.ok /\ d.soft = {} /\ Len(d.st.rules) = 1
     /\ d.st.rules[1].ast = ast
     /\ d.st.rules[1].cutoff = 10000 /\ d.st.rules[1].nbhd = 20000
-(* ... and so does every other style (all of them, not only the one in the case) *)
-AllStyles == (stage = 2 /\ case.kind = "ast" /\ case.sep = 0 /\ case.files[1][Len(case.files[1])] # ")") =>
-    \A s \in Styles : LET d == Den(<< R("r1", "C", 10, 20, <<>>, RenderTop(ast, s), <<>>, <<>>) >>, UnitMult)
-                      IN  d.ok /\ d.st.rules[1].ast = ast
+(* the meaning used to compare trees: a tree means what it means, never what its negation means, and a
+   chain means the same with its operands reversed *)
+EquivSane == (stage = 2 /\ case.kind = "ast" /\ case.sep = 3 /\ LeafCount(ast) <= 3) =>
+    /\ Equiv(ast, ast) /\ ~Equiv(ast, Negate(ast))
+    /\ (ast.k \in {"and", "or"} => Equiv(ast, [ast EXCEPT !.args = RevSeq(ast.args)]))
+    /\ (ast.k = "and" => ~Equiv(ast, [ast EXCEPT !.k = "or"]))
 (* multi-rule / multi-file cases denote the constructed state; superiors are closed; distances scaled *)
 FileDenotes == (stage = 2 /\ case.exp # <<>>) =>
     LET d == Den(case.files, case.mult) IN d.ok /\ d.soft = {} /\ d.st.rules = case.exp /\ SuperiorsClosed(d.st)
@@ -289,12 +291,16 @@ RECURSIVE JoinFrom(_, _, _)
 JoinFrom(toks, i, sep) == IF i > Len(toks) THEN <<>>
                           ELSE (IF i > 1 THEN SepFor(toks, i, sep) ELSE <<>>) \o CP[toks[i]] \o JoinFrom(toks, i + 1, sep)
 JoinCP(toks, sep) == IF sep = 6 THEN SepCP[6] \o JoinFrom(toks, 1, sep) \o SepCP[7] ELSE JoinFrom(toks, 1, sep)
-SeparatorsIrrelevant == (stage = 2) =>
-    \A f \in DOMAIN case.files : \A sep \in {case.sep, 4, 5, 6} :
+SeparatorsIrrelevant == (stage = 2 /\ (case.kind # "ast" \/ case.sep # 0)) =>
+    \A f \in DOMAIN case.files : \A sep \in {case.sep, 6} :
         Tokenise(JoinCP(case.files[f], sep)) = [i \in DOMAIN case.files[f] |-> CP[case.files[f][i]]]
-(* the closed vocabulary is classified as the lexical grammar classifies its spelling *)
-VocabularyClassified == (stage >= 2) =>
-    \A f \in DOMAIN case.files : \A i \in DOMAIN case.files[f] :
-        LET s == case.files[f][i] IN s \in DOMAIN CP /\ Classify(s, CP[s]) = LexClosed(s)
-(* negative control: a reference parser without precedence (left-to-right) is caught by RoundTrip; see RuleGrammar_MCneg *)
+(* the closed vocabulary is classified as the lexical grammar classifies its spelling (checked once),
+   and the generator never leaves the vocabulary *)
+ASSUME VocabularyClassified == \A s \in DOMAIN CP : Classify(s, CP[s]) = LexClosed(s)
+InVocabulary == (stage >= 2) => \A f \in DOMAIN case.files : \A i \in DOMAIN case.files[f] : case.files[f][i] \in DOMAIN CP
+(* negative control (must be VIOLATED): without the parentheses that precedence requires a tree does
+   not read back as itself *)
+ParenthesesNeverNeeded == (stage = 2 /\ case.kind = "ast") =>
+    LET d == Den(<< R("r1", "C", 10, 20, <<>>, RenderTop(ast, DropStyle), <<>>, <<>>) >>, UnitMult)
+    IN  d.ok /\ d.st.rules[1].ast = ast
 =============================================================================
